@@ -45,7 +45,10 @@ TSwapChain == /\ IsEv("swapchain") /\ UNCHANGED <<val, pend>>
                  /\ Elems(Ev.rets) \cup {Ev.final} = toks \cup {0}          \* nothing lost, nothing invented
 \* casinc: "CompareAndSwap succeeds exactly when the current value equals old": increments are never lost
 TCasInc == IsEv("casinc") /\ UNCHANGED <<val, pend>> /\ Ev.final = Ev.start + Ev.succ
-TNext == TReset \/ TInv \/ TRet \/ TSwapChain \/ TCasInc \/ \E t \in Threads : TLin(t)
+\* eqstore: the register holds one value throughout (other goroutines keep storing that same value): "once a value has been
+\* stored CompareAndSwap succeeds exactly when the current value equals old" => CompareAndSwap(v, v) never fails
+TEqStore == IsEv("eqstore") /\ UNCHANGED <<val, pend>> /\ Ev.fails = 0
+TNext == TReset \/ TInv \/ TRet \/ TSwapChain \/ TCasInc \/ TEqStore \/ \E t \in Threads : TLin(t)
 TSpec == TInit /\ [][TNext]_vars
 Track == TrackL(l)
 Accepted == AcceptedP
